@@ -80,6 +80,9 @@ INTRINSIC = [
     "kout = maxval(ia) - minval(ia)", "t = sum(v(:) * w(:))", "t = product(a(1:n))",
     "t = sum(abs(e))", "x = sum(v)", "t = maxval(a, mask=a < 19.0)", "kout = product(ia(1:n))",
     "t = sum(a(m:m+n))", "v(1) = sum(v)", "t = sum(d(:,m))",
+    # the target element may alias an element used on the right-hand side (n == m)
+    "a(n) = a(m) + sum(v)", "a(n) = a(m) * product(v)", "b(m) = maxval(w) + b(n)",
+    "ia(n+1) = ia(m) + sum(ia)", "a(n) = sum(v) - a(m)", "c(n,m) = c(m,n) + sum(d)",
 ]
 
 
